@@ -168,3 +168,48 @@ def c06_rebalance_lemmas(task):
     _res(out, "C06/lemma/fixed-income-child-reaches-w*notional-base", ("C06", "C17"), hf, nv + amtf == w * B, rests_on="StrategyBase.rebalance/amount:fixed-income-strategy")
     out["samples"].append(dict(lemma="(v + amount(w, v/V, V(1-cash), V)) / V == (1-cash) w", rests_on=on))
     return out
+
+
+# ------------------------------------------------------------------------------------------- C04: securities read the current row only
+def c04_security_reads_current_row(task):
+    """non-interference lemma over the functional specs of the five security updates: two states that agree everywhere
+    except on the supplied series (prices, bid/offer, coupons, holding costs) at rows other than the current one
+    produce the same post-state (every scalar, every recorded row)"""
+    from pyvc.heap import ZMap
+
+    out = dict(results=[], samples=[])
+    sch, h1, sec = _sec_state()
+    date = dsl.fresh_int("date")
+    specs = dict(SecurityBase=cs.spec_secbase_update, FixedIncomeSecurity=cs.spec_fi_update, CouponPayingSecurity=cs.spec_coupon_update,
+                 HedgeSecurity=cs.spec_hedge_update, CouponPayingHedgeSecurity=cs.spec_cphedge_update)
+    inputs = ["_prices", "_bidoffers", "_coupons", "_cost_long", "_cost_short"]
+    from pyvc.heap import idx_f
+
+    i = idx_f(date.r)
+    for cls, fn in specs.items():
+        H1 = h1.copy()
+        for f in inputs:
+            H1.arr(f), H1.nanarr(f)
+        H2 = H1.copy()
+        hyps = []
+        for f in inputs:
+            for key in (f, f + "#nan"):
+                a1 = H1.maps[key]
+                fresh = z3.Const(dsl.fresh_name(key + "@alt"), a1.arr.sort())
+                H2.maps[key] = ZMap(fresh)
+                hyps.append(z3.Select(z3.Select(fresh, sec.term), i) == z3.Select(a1.select(sec.term), i))
+                # the `is None` status of optional series is part of the configuration, not of the data
+        hyps.append(date.r != 0)
+        S1, S2 = SpecState(H1), SpecState(H2)
+        S1.call(fn, sec, date, None, None)
+        S2.call(fn, sec, date, None, None)
+        keys = sorted(set(S1.heap.maps) | set(S2.heap.maps))
+        for k in keys:
+            if k.split("#")[0] in inputs:
+                continue
+            a, b = S1.heap.ensure(k), S2.heap.ensure(k)
+            if map_same(a, b):
+                continue
+            _res(out, "C04/lemma/%s.update-depends-only-on-the-current-row:%s" % (cls, k), ("C04",), hyps, And(S1.raised == S2.raised, map_equal(a, b)), rests_on="%s.update/post/* (functional spec)" % cls)
+    out["samples"].append(dict(lemma="inputs differing at rows != idx(date) => identical post-state", classes=list(specs)))
+    return out
